@@ -177,6 +177,68 @@ SKIP_METHODS = {
 }
 
 
+ERRORISH = ("BluetoothGATTErrorResponse", "BluetoothDeviceConnectionResponse")
+
+
+def _auto_respond(w: ConnWorld, handlers: Any, before_sub: set[str], before_frames: int, ids: dict[int, str]) -> None:
+    pb = env.pb()
+    tried: set[str] = set()
+    for _ in range(6):
+        if not w.pending("call"):
+            return
+        sub = sorted({k.__name__ for k, v in handlers.items() if len(v)} - before_sub)
+        frames = w.sent_frames()[before_frames:]
+        req = None
+        if frames:
+            t, pl = frames[-1]
+            if t in ids:
+                req = getattr(pb, ids[t])()
+                req.ParseFromString(pl)
+        rname = type(req).__name__ if req is not None else ""
+
+        def rank(name: str) -> tuple[int, str]:
+            if name == rname.replace("Request", "Response") and name not in tried:
+                return (0, name)
+            if name.endswith("DoneResponse"):
+                return (1, name)
+            if name in ERRORISH:
+                return (3, name)
+            return (2, name)
+
+        cands = [x for x in sorted(sub, key=rank) if x not in tried] or sorted(sub, key=rank)
+        if not cands:
+            return
+        name = cands[0]
+        tried.add(name)
+        msg = getattr(pb, name)()
+        if req is not None:
+            for fd in msg.DESCRIPTOR.fields:
+                if fd.name in req.DESCRIPTOR.fields_by_name and not pbgen.is_repeated(fd) and fd.type != fd.TYPE_MESSAGE:
+                    try:
+                        setattr(msg, fd.name, getattr(req, fd.name))
+                    except (TypeError, ValueError):
+                        pass
+        if "connected" in msg.DESCRIPTOR.fields_by_name:
+            msg.connected = True
+        w.io_chunk(w.sock, w.dframe(msg))
+        w.drain()
+
+
+def _exercise(w: ConnWorld, r: Any) -> None:
+    items = list(r) if isinstance(r, (tuple, list)) else [r]
+    for i, it in enumerate(items):
+        if not callable(it):
+            continue
+        try:
+            if inspect.iscoroutinefunction(it):
+                w.spawn(f"ret{i}", it)
+            else:
+                it()
+        except Exception:  # noqa: BLE001
+            pass
+        w.drain()
+
+
 def direction_sweep(res: Result, counter: list[int]) -> dict[str, Any]:
     from aioesphomeapi import model
     from aioesphomeapi.client import APIClient
@@ -193,6 +255,7 @@ def direction_sweep(res: Result, counter: list[int]) -> dict[str, Any]:
             continue
         methods.append((n, obj))
     uncovered: list[str] = []
+    answered: set[str] = set()
     sent_all: set[str] = set()
     sub_all: set[str] = set()
     calls = 0
@@ -247,8 +310,15 @@ def direction_sweep(res: Result, counter: list[int]) -> dict[str, Any]:
                     except Exception as e:  # noqa: BLE001
                         if major_minor == (1, 10):
                             uncovered.append(f"{n}: raised {type(e).__name__}: {e}")
-                # let eager tasks write; do not answer
+                # let eager tasks write, then play the device: answer with the subscribed types until the call returns,
+                # and exercise whatever the call returns (unsubscribe / stop functions generate traffic too)
                 w.drain()
+                if handlers is not None and inspect.iscoroutinefunction(fn):
+                    _auto_respond(w, handlers, before_sub, before_frames, ids)
+                    r = w.results.get("call")
+                    if r is not None and r[0] == "ok":
+                        answered.add(n)
+                        _exercise(w, r[1])
                 frames = w.sent_frames()[before_frames:]
                 for t, _ in frames:
                     nm = ids.get(t)
@@ -272,6 +342,7 @@ def direction_sweep(res: Result, counter: list[int]) -> dict[str, Any]:
         "api_calls": calls,
         "methods": len(methods),
         "uncovered_methods": uncovered,
+        "awaited_methods_completed_by_auto_responder": sorted(answered),
         "types_sent": sorted(sent_all),
         "types_subscribed": sorted(sub_all),
         "handler_table_unreadable": skipped_internal,
